@@ -9,8 +9,8 @@ from __future__ import annotations
 import random
 
 NAMES = ["a", "b", "c", "d", "x", "y", "version", '"q-r"']
-VALUES_OK = ["1", '"s"', "[ 1 2 ]", "{ k = 1; }", "x", "true", "./p.nix", "f a", "a.b", "-1"]
-VALUES_BAD = ["", "1 +", "{", "}", "a = 1;", "[ 1", '"unterminated', "# only a comment"]
+VALUES_OK = ["1", '"s"', "[ 1 2 ]", "{ k = 1; }", "x", "true", "./p.nix", "f a", "a.b", "-1", "1 # note", "/* c */ 2"]
+VALUES_BAD = ["", "1 +", "{", "}", "a = 1;", "[ 1", '"unterminated', "# only a comment", '"x\\"', '"\\"', '"a\\\\"b"', "1 2"]
 MALFORMED_PATHS = ["", "a..b", 'a."b', "@", ".a", "a.", 'a"b"', "@@", 'a."b\\', "foo-bar", "a b", "1a"]
 
 
@@ -105,13 +105,16 @@ WRAPPERS = [
     ("lambda-call", "{{ pkgs }}:\npkgs.mk {S}"),
     ("lambda-with", "{{ pkgs }}:\nwith pkgs;\n{S}"),
     ("lambda-call-paren", "{{ pkgs }}:\npkgs.mk ({S})"),
+    # curried calls whose inner callee is parenthesised
+    ("call-curried-paren", "(lib.mk x) ./p.nix {S}"),
+    ("call-paren-callee", "((f) x) {S}"),
     # the usual nixpkgs layout: a blank line (or a comment) between the wrapper head and the set
     ("lambda-formals-blank", "{{ pkgs, ... }}:\n\n{S}"),
     ("assert-blank", "assert c;\n\n{S}"),
     ("lambda-comment", "{{ pkgs }}:\n# note\n{S}"),
     ("header-lambda-call-blank", "# header\n{{ pkgs }}:\n\npkgs.mk {S}"),
 ]
-CALL_WRAPPERS = ("call", "call-select", "lambda-call", "header-lambda-call-blank")
+CALL_WRAPPERS = ("call", "call-select", "lambda-call", "header-lambda-call-blank", "call-curried-paren", "call-paren-callee")
 NON_EDITABLE = ["[ 1 2 ]", "1", '"s"', "x: x", "x", "a.b", "f 1", "if c then { a = 1; } else { a = 2; }"]
 ERRONEOUS = ["{ a = 1; ", "{ a = ; }", "{ a = 1 }", "a = 1;", "{ a = 1; } }", "let in", "{ a = 1; b = [ 1 2; }", ")("]
 
@@ -213,10 +216,25 @@ SPECIAL = [
       ("rm", 'a."b.d"'), ("set", 'a."b".d', "3"), ("rm", '"a".b.d')]),
     ("quoted-dot-vs-attrpath", "{\n  a.b.d = 1;\n  x = 2;\n}",
      [("set", '"a.b".c', "2"), ("rm", '"a.b".d'), ("set", '"a.b"', "2"), ("rm", '"a.b"'), ("rm", 'a."b.d"'), ("set", 'a."b".d', "3")]),
+    # a dotted leaf and a deeper path through it (refused: explicit binding inside the family); then the same again
+    ("attrpath-leaf-then-deeper", "{\n  a.b = 1;\n  x = 2;\n}",
+     [("set", "a.b.c", "2"), ("set", "a.b.c", "2"), ("rm", "a.b"), ("set", "a", "7"), ("set", "a.b", "5"), ("set", "a.d.e", "3")]),
+    ("inline-set-comment-value", "{ a = 1; b = 2; }",
+     [("set", "a", "1 # note"), ("set", "zz", "1 # note"), ("set", "a", "/* c */ 2"), ("set", "b", "3")]),
     ("quoted-dot-existing", "{\n  \"a.b\" = {\n    d = 1;\n  };\n  a.b.d = 2;\n}",
      [("set", '"a.b".d', "7"), ("set", "a.b.d", "7"), ("rm", '"a.b".d'), ("rm", "a.b.d"), ("set", '"a.b".c', "2")]),
 ]
 SPECIAL_PATHS_MALFORMED = ["a.", "a.b.", "x.", "@x.", '"q-r".', "a..", ".a", "a. b", "a\n", "\ta", " a", "a ", '"a"b', 'a"b"', "@", "@.a"]
+
+
+SPECIAL_DOCS = [
+    # the edit target is reached through a name bound in an outer AND an inner let, a wrapper in between
+    ("ident-target-shadowed-paren", "let\n  a = {\n    x = 1;\n  };\nin\n(let\n  a = {\n    x = 2;\n  };\nin\na)\n"),
+    ("ident-target-shadowed-lambda", "let\n  a = {\n    x = 1;\n  };\nin\n{ pkgs }:\nlet\n  a = {\n    x = 2;\n  };\nin\npkgs.mk a\n"),
+    ("ident-target-shadowed-assert", "let\n  a = {\n    x = 1;\n  };\nin\nassert true;\nlet\n  a = {\n    x = 2;\n  };\nin\na\n"),
+    ("ident-target-nested-lets", "let\n  a = {\n    x = 1;\n  };\nin\nlet\n  a = {\n    x = 2;\n  };\nin\na\n"),
+    ("ident-target-single", "let\n  a = {\n    x = 1;\n  };\n  b = 2;\nin\na\n"),
+]
 
 
 def enumerate_special():
@@ -232,6 +250,11 @@ def enumerate_special():
                 for op2 in ops[:5]:
                     if op2 is not op and wname == "bare":
                         yield text, [op, op2], {"class": "editable", "wrapper": wname, "special": name}
+    for name, text in SPECIAL_DOCS:
+        for op in [("set", "x", "7"), ("set", "zz", "7"), ("rm", "x"), ("set", "x.k", "7")]:
+            yield text, [op], {"class": "editable", "wrapper": "ident-target", "special": name, "nomodel": True}
+        yield text, [("set", "x", "7"), ("set", "zz", "8"), ("rm", "x")], {"class": "editable", "wrapper": "ident-target",
+                                                                      "special": name, "nomodel": True}
     base = "{\n  a = 1;\n  x = {\n    k = 1;\n  };\n  \"q-r\" = 2;\n}\n"
     for lay in ("", "let\n  x = 1;\nin\n"):
         for p in SPECIAL_PATHS_MALFORMED:
@@ -253,6 +276,9 @@ def enumerate_single_ops():
         "{\n  \"q-r\" = 1;\n  inherit x;\n  inherit (p) y;\n}",
         "{\n  a = { p = 1; };\n  x = { };\n}",
         "{\n  b = {\n    a.p = 1;\n    a.q = 2;\n  };\n}",
+        # the last item carries an end-of-line comment and is followed by closing comments / a blank line
+        "{\n  a = 1;\n  b = 2; # eol b\n\n  # closing note\n}",
+        "{\n  a = 1;\n  inherit b; # eol\n  # closing\n}",
     ]
     layers_opts = ["", "let\n  x = 1;\nin\n", "let\n  x = 1;\n  y = x;\nin\nlet\n  x = 2;\n  v = \"0\";\nin\n",
                    "let\n  inherit (pkgs) lib;\n  x = 1;\nin\n", "let\n  inherit (pkgs) lib;\nin\n"]
@@ -261,7 +287,7 @@ def enumerate_single_ops():
                                  "zz.k.j", "b.a.p", "b.a.z", "b.a.q.z", '"q-r"', '"a.p"', "x", "y", "version", "src", "@x", "@y", "@zz", "@@x",
                                  "@@zz", "@@@x", "@x.k", "", "a..b", "@"]
          for v in ["7"]]
-        + [("set", "a", v) for v in ["{ k = 1; }", "x", "", "1 +", '"s"']]
+        + [("set", "a", v) for v in ["{ k = 1; }", "x", "", "1 +", '"s"', "1 # note", '"x\\"']]
         + [("rm", p) for p in ["a", "b", "c", "zz", "b.a.p", "b.a", "a.p", "a.q", "a.q.r", "a.z", "b.k", "zz.k", '"q-r"', "x", "y",
                                "@x", "@y", "@zz", "@@x", "@@v", "@@@x", "", "a..b"]]
     )
